@@ -36,7 +36,19 @@ RULE = ("conv: Hypothesis-drawn shapes (axes independent, 1..12 quick / 1..40 th
         "first positional + rest keyword-only, defaults, functools.partial currying a parameter declared before / after the grids by "
         "keyword or by position, bound method, object with __call__, an unrelated defaulted parameter between the grids); each "
         "grid used contributes a distinct non-symmetric factor, so a grid bound to another parameter's slot changes the image at "
-        "O(1); the oracle evaluates the same formula by name on the harness' own grids.")
+        "O(1); the oracle evaluates the same formula by name on the harness' own grids.  "
+        "Round-6 hardening: (same object twice) conv(a, a) with one array object - and with a second view of the same memory - for both "
+        "arguments, for the drawn object and the drawn PSF (every dtype / layout / kind, amplitude 1e-140 .. 1e140), against the explicit "
+        "circular sum of the array with itself and against conv(a, a.copy()); every impulse of the enumeration convolved with itself lands at "
+        "twice its offset with weight w^2; the object handed to apply_transfer_functions also as its transfer function ([obj], [obj, obj] vs "
+        "[obj.copy()]); an array listed twice in tfs is the same array object or an equal copy (drawn).  (History on one container / array) "
+        "after the first round of MTF / PTF / OTF calls the PSF changes - the RichData's public .data is replaced by another drawn PSF of the "
+        "same shape, the array is assigned / multiplied by a non-constant pattern in place, .dx is changed, a copy() of the used container "
+        "receives the new PSF - and a second round in a drawn order of the three routines is held to the same explicit-DFT oracle and laws for "
+        "the *current* data (buckets ...:after-data-reassigned / -edited-in-place / -dx-changed); the array forms get the same treatment with the "
+        "same array object.  (After a caught exception) conv with non-broadcastable shapes / 1-D / None, apply_transfer_functions with a callable "
+        "but no dx, a transfer function of another shape, a callable that raises, the OTF routines without dx and on a container whose dx is "
+        "None (then assigned) are issued inside try/except before the checked calls; nothing is asserted about them.")
 ASSUMPTIONS = ["numpy.fft (pocketfft) and numpy.roll are correct", "objects, PSFs and transfer-function arrays have the same 2-D shape",
                "user-supplied frequency grids are given for both fx and fy, in the convention selected by `shift`",
                "sum(psf) > 0 for the MTF clauses (entries >= 0, at least one >= 0.05 of the peak before scaling)",
@@ -130,10 +142,20 @@ def _unchanged(ctx, arr, keep, bucket, what):
         ctx.fail(bucket + ':argument-modified', '%s was modified by the call (%d of %d samples differ, dtype %s -> %s)' % (what, n, k.size, k.dtype, a.dtype))
 
 
+def _caught(ctx, what, fn, *a, **k):
+    """a request that is expected to fail and is caught by the caller: nothing is asserted about it (nor if it does not fail);
+    the valid requests that follow must behave as if it had never been made"""
+    try:
+        fn(*a, **k)
+        ctx.label('failed-call:%s:did-not-raise' % what)
+    except Exception:
+        ctx.label('failed-call:%s:raised' % what)
+
+
 # ---- conv ----------------------------------------------------------------------------------------
 WEIGHTS = [1.0, -1.0, 0.5, 2.0, -0.25, 3.0, 0.0, 1e-3, -7.5]
 IMPULSE_W = [1.0, 1.0, 0.5, 2.5, 1e-3, -0.75, 1e-200, 1e200]
-PRE = ['none', 'none', 'other-shape', 'float32', 'swapped', 'ints']
+PRE = ['none', 'none', 'other-shape', 'float32', 'swapped', 'ints', 'failed-call']
 
 
 def strat_conv(tier):
@@ -161,6 +183,11 @@ def _prior_conv(ctx, conv, pre, shape, seed):
         ctx.call(conv, _real(seed, shape, 'random', 3), _real(seed, shape, 'random', 1))
     elif pre == 'ints':
         ctx.call(conv, _to_dtype(_real(seed, shape, 'random', 31), 'uint8'), _to_dtype(_real(seed, shape, 'random', 32), 'int64'))
+    elif pre == 'failed-call':
+        # unequal shapes that do not broadcast, a 1-D pair, something that is not an array
+        _caught(ctx, 'conv:shapes', conv, _real(seed, shape, 'random', 31), _real(seed, (ny + 1, nx + 2), 'random', 32))
+        _caught(ctx, 'conv:1-d', conv, np.ones(nx + 1), np.ones(nx + 1))
+        _caught(ctx, 'conv:none', conv, _real(seed, shape, 'random', 31), None)
 
 
 def check_conv(case, ctx):
@@ -238,6 +265,28 @@ def check_conv(case, ctx):
     want = float(np.sum(o64) * np.sum(h64))
     es = float(np.sum(np.abs(o64)) * np.sum(np.abs(h64))) + 1e-300
     ctx.require(abs(e - want) <= rt * es, pb + ':energy' + tb, '%s: sum(conv)=%.17g, sum(o) sum(h)=%.17g' % (desc, e, want))
+    # the very same array object given as object and as psf (and a second view of the same memory): conv is a function of the
+    # values, so the image is the explicit circular sum of the array with itself and equals what an equal copy gives
+    if case.get('selfconv', True):
+        for side, arr, kind_, dt_, e_, lay_, salt in (('object', o1, case['okind'], odt, eo, olay, 1), ('psf', h1, case['hkind'], hdt, eh, hlay, 3)):
+            es = max(-140, min(140, e_))        # the square of the amplitude must stay representable (float32 uses a tenth of the exponent)
+            x = arr if (es == e_ or dt_.kind != 'f') else U.relayout(_to_dtype(_real(seed, shape, kind_, salt), dt_, es), lay_)
+            x64 = _f64(x)
+            kx = x.copy()
+            refl = x64[(2 * (ny // 2) - np.arange(ny)) % ny][:, (2 * (nx // 2) - np.arange(nx)) % nx]
+            ctx.label('self:' + ('point-symmetric' if np.array_equal(refl, x64) else 'asymmetric'))
+            ss = float(np.sum(np.abs(x64)) * np.max(np.abs(x64))) + 1e-300
+            r32 = 2e-4 if _is32(dt_) else 1e-10
+            sdesc = 'shape %s seed %d %s %s (%s, layout %s, scale 1e%d)' % (list(shape), seed, kind_, side, dt_, lay_, es)
+            want_self = direct_conv(x64, x64)
+            same = cv(x, x, case.get('kwargs', False))
+            U.check_close(same, want_self, r32, 'conv:same-object:direct', '%s: conv(a, a) with one array object for both arguments vs explicit circular sum' % sdesc, atol=r32 * ss)
+            twin = cv(x, x.copy())
+            U.check_close(same, twin, r32, 'conv:same-object:vs-copy', '%s: conv(a, a) vs conv(a, a.copy())' % sdesc, atol=r32 * ss)
+            U.check_close(twin, want_self, r32, pb + ':direct' + tb, '%s: conv(a, a.copy()) vs explicit circular sum' % sdesc, atol=r32 * ss)
+            alias = cv(x, x.view())
+            U.check_close(alias, want_self, r32, 'conv:same-memory:direct', '%s: conv(a, a.view()) (two array objects on the same memory) vs explicit circular sum' % sdesc, atol=r32 * ss)
+            _unchanged(ctx, x, kx, 'conv', 'the array given as object and psf (%s)' % sdesc)
     # the caller owns what it handed over and what it got back
     _unchanged(ctx, o1, ko, 'conv', 'the object')
     _unchanged(ctx, h1, kh, 'conv', 'the psf')
@@ -282,6 +331,12 @@ def check_impulse(case, ctx):
             want = w * np.roll(o64, (y - ny // 2, x - nx // 2), axis=(0, 1))
             U.check_close(ctx.call(conv, o, d), want, rt, pb + ':translation' + tb, 'shape %s %s object, impulse %r at %s (psf side)' % ([ny, nx], odt, w, [y, x]), atol=rt * sc + 1e-13)
             U.check_close(ctx.call(conv, d, o), want, rt, pb + ':translation' + tb, 'shape %s %s object, impulse %r at %s (object side)' % ([ny, nx], odt, w, [y, x]), atol=rt * sc + 1e-13)
+            if case.get('self', True):
+                # the impulse convolved with itself (one array object for both arguments) lands at twice its offset with weight w^2
+                want2 = np.zeros((ny, nx))
+                want2[(2 * (y - ny // 2) + ny // 2) % ny, (2 * (x - nx // 2) + nx // 2) % nx] = w * w
+                U.check_close(ctx.call(conv, d, d), want2, 1e-12, pb + ':translation:same-object', 'shape %s, impulse %r at %s convolved with itself (the same array object twice): expected %r at %s' % (
+                    [ny, nx], w, [y, x], w * w, [(2 * (y - ny // 2) + ny // 2) % ny, (2 * (x - nx // 2) + nx // 2) % nx]), atol=1e-12 * w * w)
     _unchanged(ctx, o, keep, 'conv', 'the object')
 
 
@@ -473,7 +528,7 @@ def strat_tf(tier):
         'grids': st.sampled_from(['library', 'library', 'user1d', 'user2d']), 'dx': st.sampled_from(TF_DX),
         'okind': st.sampled_from(['random', 'random', 'embedded', 'impulse']),
         'odtype': st.sampled_from(DTYPES), 'olayout': U.layouts, 'oscale': st.sampled_from(TF_OSCALE), 'glayout': U.layouts,
-        'container': st.sampled_from(['list', 'list', 'tuple', 'ndarray']), 'pre': st.sampled_from(['none', 'none', 'other-shift', 'other-dx', 'other-shape', 'float32'])})
+        'container': st.sampled_from(['list', 'list', 'tuple', 'ndarray']), 'share': st.booleans(), 'pre': st.sampled_from(['none', 'none', 'other-shift', 'other-dx', 'other-shape', 'float32', 'failed-call'])})
 
 
 def _tf_array(spec, seed, shape):
@@ -549,7 +604,14 @@ def check_tf(case, ctx):
                 ctx.label('same-callable-object-repeated')
             tfs.append(same_obj[key])
         else:
-            v = _tf_array(s, seed, shape)
+            # an array listed again is the very same array object when 'share' is drawn (e.g. [mask, mask]), an equal copy otherwise
+            key = U.canon(s)
+            if case.get('share', False) and key in same_obj:
+                v = same_obj[key]
+                ctx.label('same-array-object-repeated')
+            else:
+                v = _tf_array(s, seed, shape)
+                same_obj[key] = v
             vals.append(_f64(v))
             tfs.append(v)
     keeps = [None if callable(t) else t.copy() for t in tfs]
@@ -586,7 +648,14 @@ def check_tf(case, ctx):
         bucket += ':parameters-not-in-canonical-order'
     tb = '' if odt.kind == 'f' else ':%s-object' % odt
     # history inside one process: another valid call first (other convention / spacing / shape / precision)
-    if pre != 'none':
+    if pre == 'failed-call':
+        # a callable without a sample spacing or grids, a transfer function of another shape, a callable that raises
+        def broken(fx, fy):
+            raise RuntimeError('user transfer function failed')
+        _caught(ctx, 'apply_tf:no-dx', atf, _real(seed, shape, 'random', 41), None, [lambda fr: 1 / (1 + fr)], shift=shift)
+        _caught(ctx, 'apply_tf:shape', atf, _real(seed, shape, 'random', 41), dx, [np.ones((ny + 1, nx + 2))], shift=shift)
+        _caught(ctx, 'apply_tf:callable-raises', atf, _real(seed, shape, 'random', 41), dx, [lambda fr: 1 / (1 + fr), broken], shift=shift)
+    elif pre != 'none':
         psh = (nx + 1, ny + 2) if pre == 'other-shape' else shape
         po = _real(seed, psh, 'random', 41).astype(np.float32 if pre == 'float32' else np.float64)
         ctx.call(atf, po, dx * 3 if pre == 'other-dx' else dx, [lambda fx, fy, fr, ft: 1 / (1 + fr + 0 * fx + 0 * fy + 0 * ft)],
@@ -629,6 +698,19 @@ def check_tf(case, ctx):
                (lambda fx, fy: np.ones(np.broadcast_shapes(np.shape(fx), np.shape(fy)))))
     ident = np.asarray(ctx.call(atf, o_in, dx, [ones_fn], shift=shift))
     U.check_close(ident, o, rti, 'apply_tf:%s:ones-identity' % conv_name, 'shape %s shift=%s %s object: all-ones callable' % (list(shape), shift, odt), atol=rti * 0.1 * osc)
+    # the object itself handed over as the (real) transfer function too: one array object in both roles vs an equal copy
+    if case.get('selftf', True) and abs(eo) <= 140:
+        To = np.fft.ifftshift(o) if shift else o
+        want_s = np.fft.ifft2(np.fft.fft2(o) * To).real
+        ssc = float(np.max(np.abs(o)) * np.sum(np.abs(o))) + 1e-300
+        got_s = np.asarray(ctx.call(atf, o_in, dx_arg, [o_in], shift=shift))
+        U.check_close(got_s, want_s, rt, 'apply_tf:%s:same-object' % conv_name, 'shape %s shift=%s %s object (%s, 1e%d) also given as the transfer function (same array object)' % (
+            list(shape), shift, odt, olay, eo), atol=rt * 0.1 * ssc)
+        got_c = np.asarray(ctx.call(atf, o_in, dx_arg, [o_in.copy()], shift=shift))
+        U.check_close(got_s, got_c, rt, 'apply_tf:%s:same-object:vs-copy' % conv_name, 'shape %s shift=%s %s object: tfs=[obj] vs tfs=[obj.copy()]' % (list(shape), shift, odt), atol=rt * 0.1 * ssc)
+        got_2 = np.asarray(ctx.call(atf, o_in, dx_arg, [o_in, o_in], shift=shift))
+        U.check_close(got_2, np.fft.ifft2(np.fft.fft2(o) * To * To).real, rt, 'apply_tf:%s:same-object' % conv_name, 'shape %s shift=%s %s object (%s, 1e%d): tfs=[obj, obj]' % (
+            list(shape), shift, odt, olay, eo), atol=rt * 0.1 * ssc * float(np.max(np.abs(o))))
     args_untouched('at the end')
     U.check_equal(np.asarray(got_raw), got_keep, 'apply_tf:result-overwritten', '%s: the first result changed during later calls' % desc)
 
@@ -671,13 +753,22 @@ MTF_SCALE64 = [0, 0, 0, -300, -250, -100, -30, -17, -10, -5, 5, 100, 300]
 MTF_SCALE32 = [0, 0, -30, -20, -12, -9, -8, 9, 30]
 
 
+# what happens to the PSF between two rounds of calls (same container object / same array object): the public .data attribute of the
+# container is replaced by another PSF of the same shape, or the array is edited in place (assigned / multiplied by a non-constant
+# pattern), the container's dx is changed, a copy() of the used container receives the new PSF
+EDITS = ['none', 'reassign', 'inplace', 'inplace-op', 'dx', 'reassign+dx', 'copy-reassign', 'reassign', 'inplace']
+_ORDERS = [(0, 1, 2), (0, 2, 1), (1, 0, 2), (1, 2, 0), (2, 0, 1), (2, 1, 0)]
+
+
 def strat_mtf(tier):
     return _shape(tier).flatmap(lambda s: st.fixed_dictionaries({
         'shape': st.just(s), 'seed': U.seeds, 'kind': st.sampled_from(['random', 'sparse', 'gauss', 'airy', 'impulse']),
         'off': st.tuples(st.integers(0, s[0] - 1), st.integers(0, s[1] - 1)).map(list),
-        'dx': st.sampled_from([1.0, 0.5, 4.4, 0.03, 1e-6, 1e6]), 'via': st.sampled_from(['array', 'array', 'array-kw', 'richdata']),
+        'dx': st.sampled_from([1.0, 0.5, 4.4, 0.03, 1e-6, 1e6]), 'via': st.sampled_from(['array', 'array', 'array-kw', 'richdata', 'richdata']),
         'dtype': st.sampled_from(MTF_DT), 'layout': U.layouts, 'e64': st.sampled_from(MTF_SCALE64), 'e32': st.sampled_from(MTF_SCALE32),
-        'pre': st.sampled_from(['none', 'none', 'other-shape', 'float32', 'bright'])}))
+        'pre': st.sampled_from(['none', 'none', 'other-shape', 'float32', 'bright', 'failed-call']),
+        'edit': st.sampled_from(EDITS), 'kind2': st.sampled_from(['random', 'sparse', 'gauss', 'airy', 'impulse']),
+        'off2': st.tuples(st.integers(0, s[0] - 1), st.integers(0, s[1] - 1)).map(list), 'order2': st.integers(0, 5)}))
 
 
 def _partners(n):
@@ -697,6 +788,46 @@ def _psf_as(p, dt, e):
     if dt.kind == 'b':
         return p >= 0.5
     return np.rint(p * (200 if dt.itemsize == 1 else 1000)).astype(dt)
+
+
+def _mtf_props(ctx, m, ph, ot, p64, shape, dx, dt, desc, hist=''):
+    """the statement's MTF / OTF / PTF clauses for the three results m, ph, ot (RichData) of the non-negative PSF p64 (float64 values
+    of what was handed over): explicit-DFT oracle, DC, range, point symmetry, mutual consistency, frequency spacing.  `hist` is
+    appended to the buckets of results obtained after the PSF of the same container / array object was changed."""
+    ny, nx = shape
+    cy, cx = ny // 2, nx // 2
+    f32 = dt == np.float32
+    pn = p64 / p64.max()     # the oracle works on the peak-normalised values (the quantities under test are scale invariant)
+    total = float(pn.sum()) * float(p64.max())
+    eps = float(np.finfo(dt).eps) if dt.kind == 'f' else float(np.finfo(np.float64).eps)
+    M, PH, OT = np.asarray(m.data), np.asarray(ph.data), np.asarray(ot.data)
+    for name, arr in (('mtf', M), ('ptf', PH), ('otf', OT)):
+        U.check_shape(arr, shape, name + '_from_psf', desc)
+    ctx.require(M.dtype.kind == 'f' and PH.dtype.kind == 'f' and OT.dtype.kind == 'c', 'otf:dtype', 'dtypes %s %s %s' % (M.dtype, PH.dtype, OT.dtype))
+    M, PH, OT = M.astype(np.float64), PH.astype(np.float64), OT.astype(np.complex128)
+    t11, t12, t13, t14 = (5e-5, 5e-5, 1e-6, 5e-5) if f32 else (1e-11, 1e-12, 1e-13, 1e-12)
+    # independent reference: explicit DFT about n//2, normalised by the DC value = sum(psf)
+    F = U.ref_dft(pn, 1, shape) * math.sqrt(ny * nx)
+    ctx_sum = float(pn.sum())
+    assert abs(F[cy, cx] - ctx_sum) <= 1e-9 * ctx_sum
+    ref = F / ctx_sum
+    sb = ':energy<eps' if total < eps else ''
+    U.check_close(OT, ref, t11, 'otf_from_psf:oracle' + sb + hist, '%s: OTF vs explicit DFT/sum' % desc, atol=t11 * 0.1)
+    U.check_close(M, np.abs(ref), t11, 'mtf_from_psf:oracle' + sb + hist, '%s: MTF vs |explicit DFT|/sum' % desc, atol=t11 * 0.1)
+    ctx.require(abs(M[cy, cx] - 1) <= t13, 'mtf_from_psf:dc' + sb + hist, '%s: MTF at zero frequency [%d,%d] = %.17g' % (desc, cy, cx, M[cy, cx]))
+    ctx.require(abs(OT[cy, cx] - 1) <= t13 and abs(PH[cy, cx]) <= t13, 'otf_from_psf:dc' + sb + hist, '%s: OTF(0)=%r PTF(0)=%r' % (desc, OT[cy, cx], PH[cy, cx]))
+    ctx.require(float(M.max()) <= 1 + t12 and float(M.min()) >= 0, 'mtf_from_psf:range', '%s: MTF range [%.17g, %.17g]' % (desc, M.min(), M.max()))
+    iy, jy = _partners(ny)
+    ix, jx = _partners(nx)
+    ctx.tally('mirror_pairs_checked', len(iy) * len(ix))
+    U.check_close(M[np.ix_(iy, ix)], M[np.ix_(jy, jx)], t14, 'mtf_from_psf:point-symmetry', '%s: MTF[c+k] vs MTF[c-k]' % desc, atol=t14 * 0.1)
+    U.check_close(OT[np.ix_(iy, ix)], np.conj(OT[np.ix_(jy, jx)]), t14, 'otf_from_psf:hermitian', '%s: OTF[c+k] vs conj OTF[c-k]' % desc, atol=t14 * 0.1)
+    U.check_close(M * np.exp(1j * PH), OT, t14, 'otf:consistency' + sb + hist, '%s: MTF exp(i PTF) vs OTF' % desc, atol=t14 * 0.1)
+    ctx.require(float(np.max(np.abs(PH))) <= math.pi + (1e-6 if f32 else 1e-12), 'ptf_from_psf:range', '%s: |PTF| max %.17g' % (desc, np.max(np.abs(PH))))
+    ctx.require(m.dx == ph.dx == ot.dx, 'otf:dx' + hist, '%s: frequency spacing differs: %r %r %r' % (desc, m.dx, ph.dx, ot.dx))
+    if ny == nx:
+        ctx.require(abs(m.dx - 1000 / (ny * dx)) <= 1e-12 * 1000 / (ny * dx), 'otf:dx' + hist, '%s: df=%r, expected 1000/(n dx)=%r' % (desc, m.dx, 1000 / (ny * dx)))
+    return F / ctx_sum
 
 
 def check_mtf(case, ctx):
@@ -734,13 +865,22 @@ def check_mtf(case, ctx):
     elif pre == 'bright':
         ctx.call(otf.mtf_from_psf, 1e6 * (1 + _real(case['seed'], shape, 'random', 9) ** 2), dx)
 
-    def mkarg(arr):
+    def mkarg(arr, dx=dx):
         if via == 'richdata':
             return (RichData(arr, dx, None),), {}
         if via == 'array-kw':
             return (), {'psf': arr, 'dx': dx}
         return (arr, dx), {}
     a, k = mkarg(p_in)
+    if pre == 'failed-call':
+        # the array form without its sample spacing is refused; a container that has no spacing yet fails, receives its dx and is used
+        for fn in (otf.mtf_from_psf, otf.otf_from_psf, otf.ptf_from_psf):
+            _caught(ctx, 'otf:no-dx', fn, p_in)
+        if via == 'richdata':
+            a[0].dx = None
+            for fn in (otf.ptf_from_psf, otf.mtf_from_psf, otf.otf_from_psf):
+                _caught(ctx, 'otf:container-without-dx', fn, a[0])
+            a[0].dx = dx
     m = ctx.call(otf.mtf_from_psf, *a, **k)
     ph = ctx.call(otf.ptf_from_psf, *a, **k)
     ot = ctx.call(otf.otf_from_psf, *a, **k)
@@ -748,32 +888,7 @@ def check_mtf(case, ctx):
     keepM, keepPH, keepOT = M.copy(), PH.copy(), OT.copy()
     desc = 'psf %s shape %s seed %d off %r dtype %s layout %s total energy %.3g via %s' % (case['kind'], list(shape), case['seed'], list(off), dt, lay, total, via)
     _unchanged(ctx, p_in, pkeep, 'otf', 'the psf (%s)' % desc)
-    for name, arr in (('mtf', M), ('ptf', PH), ('otf', OT)):
-        U.check_shape(arr, shape, name + '_from_psf', desc)
-    ctx.require(M.dtype.kind == 'f' and PH.dtype.kind == 'f' and OT.dtype.kind == 'c', 'otf:dtype', 'dtypes %s %s %s' % (M.dtype, PH.dtype, OT.dtype))
-    M, PH, OT = M.astype(np.float64), PH.astype(np.float64), OT.astype(np.complex128)
-    t11, t12, t13, t14 = (5e-5, 5e-5, 1e-6, 5e-5) if f32 else (1e-11, 1e-12, 1e-13, 1e-12)
-    # independent reference: explicit DFT about n//2, normalised by the DC value = sum(psf)
-    F = U.ref_dft(pn, 1, shape) * math.sqrt(ny * nx)
-    ctx_sum = float(pn.sum())
-    assert abs(F[cy, cx] - ctx_sum) <= 1e-9 * ctx_sum
-    ref = F / ctx_sum
-    sb = ':energy<eps' if total < eps else ''
-    U.check_close(OT, ref, t11, 'otf_from_psf:oracle' + sb, '%s: OTF vs explicit DFT/sum' % desc, atol=t11 * 0.1)
-    U.check_close(M, np.abs(ref), t11, 'mtf_from_psf:oracle' + sb, '%s: MTF vs |explicit DFT|/sum' % desc, atol=t11 * 0.1)
-    ctx.require(abs(M[cy, cx] - 1) <= t13, 'mtf_from_psf:dc' + sb, '%s: MTF at zero frequency [%d,%d] = %.17g' % (desc, cy, cx, M[cy, cx]))
-    ctx.require(abs(OT[cy, cx] - 1) <= t13 and abs(PH[cy, cx]) <= t13, 'otf_from_psf:dc' + sb, '%s: OTF(0)=%r PTF(0)=%r' % (desc, OT[cy, cx], PH[cy, cx]))
-    ctx.require(float(M.max()) <= 1 + t12 and float(M.min()) >= 0, 'mtf_from_psf:range', '%s: MTF range [%.17g, %.17g]' % (desc, M.min(), M.max()))
-    iy, jy = _partners(ny)
-    ix, jx = _partners(nx)
-    ctx.tally('mirror_pairs_checked', len(iy) * len(ix))
-    U.check_close(M[np.ix_(iy, ix)], M[np.ix_(jy, jx)], t14, 'mtf_from_psf:point-symmetry', '%s: MTF[c+k] vs MTF[c-k]' % desc, atol=t14 * 0.1)
-    U.check_close(OT[np.ix_(iy, ix)], np.conj(OT[np.ix_(jy, jx)]), t14, 'otf_from_psf:hermitian', '%s: OTF[c+k] vs conj OTF[c-k]' % desc, atol=t14 * 0.1)
-    U.check_close(M * np.exp(1j * PH), OT, t14, 'otf:consistency' + sb, '%s: MTF exp(i PTF) vs OTF' % desc, atol=t14 * 0.1)
-    ctx.require(float(np.max(np.abs(PH))) <= math.pi + (1e-6 if f32 else 1e-12), 'ptf_from_psf:range', '%s: |PTF| max %.17g' % (desc, np.max(np.abs(PH))))
-    ctx.require(m.dx == ph.dx == ot.dx, 'otf:dx', '%s: frequency spacing differs: %r %r %r' % (desc, m.dx, ph.dx, ot.dx))
-    if ny == nx:
-        ctx.require(abs(m.dx - 1000 / (ny * dx)) <= 1e-12 * 1000 / (ny * dx), 'otf:dx', '%s: df=%r, expected 1000/(n dx)=%r' % (desc, m.dx, 1000 / (ny * dx)))
+    _mtf_props(ctx, m, ph, ot, p64, shape, dx, dt, desc)
     # the caller owns its results: another PSF of the same shape through the same routines, then the first results again
     other = np.roll(pkeep, (1, 1), axis=(0, 1)) if p_in.size > 1 else pkeep.copy()
     a2, k2 = mkarg(np.ascontiguousarray(other))
@@ -790,6 +905,56 @@ def check_mtf(case, ctx):
             pass
         U.check_close(again, keep, 1e-6 if f32 else 1e-12, '%s_from_psf:aliased-state' % name, '%s: same call after the first result was zeroed in place' % desc, atol=1e-7 if f32 else 1e-13)
     _unchanged(ctx, p_in, pkeep, 'otf', 'the psf (%s)' % desc)
+    # ---- the PSF changes between two rounds of calls on the same container object / the same array object: the public .data
+    # attribute is replaced, the array is edited in place, dx is changed, a copy() of the used container receives the new PSF;
+    # the second round must describe the *current* PSF (same oracle as above, applied to the current data)
+    edit = case.get('edit', 'none')
+    ctx.label('edit:' + edit)
+    if edit == 'none':
+        return
+    q, off2 = _psf(dict(case, kind=case.get('kind2', 'random'), seed=case['seed'] + 1, off=case.get('off2', case['off'])))
+    q_in = _psf_as(q, dt, e)
+    dx2 = dx * 2.5 if edit in ('dx', 'reassign+dx') else dx
+    cont = a[0] if via == 'richdata' else None
+    if edit == 'copy-reassign' and cont is not None:
+        cont = ctx.call(cont.copy)
+    if edit in ('reassign', 'reassign+dx', 'copy-reassign'):
+        cur = U.relayout(q_in, lay)                       # another array object
+    elif edit == 'dx':
+        cur = p_in
+    else:
+        cur = p_in if cont is None else cont.data         # the same array object, new contents
+        ctx.require(cont is None or cur is p_in, 'richdata:data-not-kept', 'RichData(data, dx, None).data is not the array that was handed over')
+        if edit == 'inplace-op' and dt.kind == 'f':
+            yy, xx = np.indices(shape)
+            cur *= (1.0 + 0.75 * np.cos(1.3 * yy + 0.4) * np.sin(0.9 * xx + 0.2)).astype(dt)      # non-constant, in [0.25, 1.75]
+        elif edit == 'inplace-op' and dt.kind in 'iu':
+            yy, xx = np.indices(shape)
+            cur[...] = np.rint(_f64(cur) * (0.75 + 0.25 * np.cos(1.3 * yy + 0.4) * np.sin(0.9 * xx + 0.2))).astype(dt)
+        else:
+            cur[...] = q_in
+    if cont is not None:
+        if edit in ('reassign', 'reassign+dx', 'copy-reassign'):
+            cont.data = cur
+        if dx2 != dx:
+            cont.dx = dx2
+        a3, k3 = (cont,), {}
+    else:
+        a3, k3 = mkarg(cur, dx2)
+    ckeep = np.array(cur, copy=True)
+    c64 = _f64(cur)
+    assert c64.min() >= 0 and c64.max() > 0
+    fns = (otf.mtf_from_psf, otf.ptf_from_psf, otf.otf_from_psf)
+    res = [None, None, None]
+    for i in _ORDERS[case.get('order2', 0) % 6]:
+        res[i] = ctx.call(fns[i], *a3, **k3)
+    desc2 = '%s; then edit=%s (new psf %s off %r, dx %r -> %r), second round of calls in order %r' % (
+        desc, edit, case.get('kind2', 'random'), list(off2), dx, dx2, list(_ORDERS[case.get('order2', 0) % 6]))
+    ref1 = U.ref_dft(pn, 1, shape) * math.sqrt(ny * nx) / float(pn.sum())
+    hist = ':after-%s' % {'reassign': 'data-reassigned', 'reassign+dx': 'data-reassigned', 'copy-reassign': 'copy-data-reassigned', 'dx': 'dx-changed'}.get(edit, 'data-edited-in-place')
+    ref2 = _mtf_props(ctx, res[0], res[1], res[2], c64, shape, dx2, dt, desc2, hist=hist if via == 'richdata' else hist + ':array')
+    ctx.label('edit-changes-otf' if float(np.max(np.abs(ref2 - ref1))) > 1e-3 else 'edit-keeps-otf')
+    _unchanged(ctx, cur, ckeep, 'otf', 'the current psf (%s)' % desc2)
 
 
 CLAUSES = [
